@@ -22,19 +22,19 @@ TRUSTED = ['str.lower() enters the model as a Section variable (theorems hold fo
            'plugin.loadPluginModule file lookup (os.listdir + (?i) regex, importlib) is reduced to: unknown name / ImportError / other exception / module; '
            'names with regex metacharacters and two plugin directories differing only in case are outside the generators',
            'module-level reload() hooks of a plugin module and the supybot.plugins.<Name> flag are not modelled',
-           'sys.modules is modelled only as the set of plugin module names popped by a failed import (what Owner.reload looks up); '
-           'cb.__module__ is taken to be the plugin name (objects added directly with addCallback never count as popped)',
+           'sys.modules is not modelled: since fix C20.F24 Owner.reload reads it with .get() and only to find an optional module-level reload() hook',
            'T20: shapes of Owner.callPrecedence, Misc.callPrecedence, IrcCallback.callPrecedence asserts + firewall default, the strEqual guards and the '
            'except ImportError clause of Owner.reload are re-read from the source on every run (fail-closed)']
 ASSUMPTIONS = ['world.testing/log.testing off (log.firewall active); Python asserts enabled (no -O)',
                'callback objects in the list are pairwise distinct objects (hypothesis NoDup ids of the theorems)',
                'single-threaded use of Irc.addCallback (the source says "This *isn\'t* threadsafe!")']
-LEVEL_TEXT = ('Coq theorems over an executable Gallina model of Irc.addCallback/getCallback/removeCallback, the three callPrecedence shapes and '
-              'Owner.load/unload/reload: for EVERY set-iteration oracle the sorted list is a permutation of the old list plus the new callback and '
-              'satisfies every precedence edge, or AssertionError is raised and the list is the old one with the new callback appended; a ranked '
-              '(acyclic) edge set is never rejected and a closed walk always is; Owner-shaped callback ends up first; names stay unique and Owner '
-              'stays registered and first over all histories; a failed load keeps the registered set, proved on the domain without failing reloads '
-              'and cyclic loads and refuted outside it (findings).  Tied to the source by regenerated shape tables and a per-operation differential run.')
+LEVEL_TEXT = ('Coq theorems over an executable Gallina model of Irc.addCallback/_sortCallbacks/getCallback/removeCallback, the three callPrecedence shapes and '
+              'Owner.load/unload/reload (as repaired by fixes C20.F21 import part, F22, F23, F24): for EVERY set-iteration oracle the sorted list is a permutation of '
+              'the old list plus the new callback and satisfies every precedence edge, or AssertionError is raised and the list is unchanged; a ranked '
+              '(acyclic) edge set is never rejected, a closed walk (incl. a self-reference) always is; every resolvable callBefore/callAfter is honoured; '
+              'Owner-shaped callback ends up first; names stay unique and Owner stays registered and first over all histories; a failed load keeps the '
+              'registered list (full statement); a reload whose import fails keeps the registered set; a reload whose new constructor / old die() raises still '
+              'loses the plugin (refuting witness, known finding C20.F21).  Tied to the source by regenerated shape tables and a per-operation differential run.')
 LEVEL_NOTE = ('Trusted: Coq kernel, gen_tables/t20.py, extraction + OCaml driver, the Python harness; str.lower is a Section variable; '
               'Python code is modelled not verified; command dispatch itself (C14) is not modelled: the command-set clause is checked directly on the live bot '
               'and in the model reduces to membership in the registered list.')
@@ -411,7 +411,8 @@ def has_cycle(inp):
 
 
 def has_failing_reload(inp):
-    return any(op[0] == 'reload' and (op[2] >= 2 or op[3] or op[4]) for op in inp['ops'])
+    """known finding C20.F21 (the part left): a reload whose import succeeds and whose new constructor or old die() raises"""
+    return any(op[0] == 'reload' and op[2] == 0 and (op[3] or op[4]) for op in inp['ops'])
 
 
 def has_reload_after_failed_import(inp):
@@ -441,7 +442,7 @@ def has_reload_after_failed_import(inp):
     return False
 
 
-CLASSES = {'failing_reload': has_failing_reload, 'reload_after_failed_import': has_reload_after_failed_import, 'cyclic_constraints': has_cycle, 'self_reference': has_self_reference}
+CLASSES = {'failing_reload': has_failing_reload}
 
 
 # ----------------------------------------------------------------------------------------------------
@@ -586,9 +587,9 @@ def probe_bundled(e):
 
 
 CORPUS = [
-    # self-reference: every constraint of S is dropped silently
+    # was C20.F23: self-reference dropped every constraint of S silently (fixed: rejected)
     {'world': [], 'ops': [['add', ['A0', 0, [], [], []]], ['add', ['A1', 0, [], [], []]], ['add', ['S', 0, ['S', 'A0', 'A1'], [], []]]]},
-    # cycle: rejected, but left appended; later adds fail too
+    # was C20.F22 (direct addCallback): cycle rejected but left appended (fixed: list unchanged)
     {'world': [], 'ops': [['add', ['A', 0, [], [], []]], ['add', ['B', 0, ['A'], ['A'], []]], ['add', ['C', 0, ['B'], [], []]]]},
     {'world': [], 'ops': [['add', ['A', 0, [], [], []]], ['add', ['a', 0, [], [], []]], ['remove', 'A'], ['add', ['a', 0, [], [], []]]]},
     {'world': [], 'ops': [['add', ['Owner', 1, [], [], []]], ['add', ['Misc', 2, [], [], []]], ['add', ['A', 0, ['misc'], ['OWNER'], []]],
@@ -599,13 +600,16 @@ CORPUS = [
      'ops': [['boot', 'Owner'], ['boot', 'Misc'], ['boot', 'Config'], ['load', 'Alpha', 0, 0], ['load', 'beta', 0, 0], ['load', 'ALPHA', 0, 0],
              ['unload', 'owner', 0], ['reload', 'OWNER', 0, 0, 0], ['reload', 'Alpha', 1, 0, 0], ['unload', 'Alpha', 1], ['load', 'Alpha', 2, 0],
              ['load', 'Alpha', 0, 1], ['load', 'Alpha', 1, 0], ['load', 'Alpha', 0, 0], ['reload', 'beta', 0, 0, 0], ['unload', 'Nope', 0]]},
-    # reload with a raising constructor loses the plugin
+    # was C20.F21 (import part): reload when the module raises something other than ImportError (fixed: plugin kept)
+    {'world': [['Owner', 1, [], [], []], ['Alpha', 0, [], [], ['cmdalpha']]],
+     'ops': [['boot', 'Owner'], ['load', 'Alpha', 0, 0], ['reload', 'Alpha', 2, 0, 0], ['reload', 'Alpha', 0, 0, 0]]},
+    # reload with a raising constructor loses the plugin (known finding C20.F21)
     {'world': [['Owner', 1, [], [], []], ['Alpha', 0, [], [], ['cmdalpha']]],
      'ops': [['boot', 'Owner'], ['load', 'Alpha', 0, 0], ['reload', 'Alpha', 0, 1, 0]]},
-    # reload after a reload that failed with ImportError: KeyError from sys.modules[...], plugin lost (seed 4 of the quick tier)
+    # was C20.F24: reload after a reload that failed with ImportError raised KeyError and lost the plugin (fixed)
     {'world': [['Owner', 1, [], [], []], ['Gamma', 0, [], [], ['cmdgamma']]],
      'ops': [['boot', 'Owner'], ['load', 'Gamma', 0, 0], ['reload', 'Gamma', 1, 0, 0], ['reload', 'gamma', 0, 0, 0]]},
-    # cyclic load: error, but the plugin stays registered behind Misc
+    # was C20.F22: cyclic load reported an error but the plugin stayed registered behind Misc (fixed)
     {'world': [['Owner', 1, [], [], []], ['Misc', 2, [], [], []], ['Alpha', 0, ['Owner'], [], ['cmdalpha']]],
      'ops': [['boot', 'Owner'], ['boot', 'Misc'], ['load', 'Alpha', 0, 0]]},
 ]
